@@ -106,7 +106,7 @@ def findTable (name : String) : Option Gen.CodonTable :=
 def reverseTranslate (t : Gen.CodonTable) : Seq → Option Seq
   | [] => some []
   | aa :: rest =>
-    match lookup (String.singleton aa) t.back, reverseTranslate t rest with
+    match lookup [aa] t.back, reverseTranslate t rest with
     | some (c :: _), some r => some (c ++ r)
     | _, _ => none
 
@@ -119,9 +119,11 @@ def gcCount (s : Seq) : Nat := (s.filter isGC).length
 /-- numerators of `gc_content(s, window)`: for each window start `i` the GC count of
     `s[i:i+w]`, computed as the code does with cumulative sums
     (`cs[w-1:] - hstack([0], cs[:-w])`).  Requires `1 ≤ w`. -/
-def cumsum (s : Seq) : List Nat :=
-  (s.foldl (fun (acc : List Nat × Nat) c =>
-      let n := acc.2 + (if isGC c then 1 else 0); (n :: acc.1, n)) ([], 0)).1.reverse
+def cumsumFrom (acc : Nat) : Seq → List Nat
+  | [] => []
+  | c :: cs => (acc + (if isGC c then 1 else 0)) :: cumsumFrom (acc + (if isGC c then 1 else 0)) cs
+
+def cumsum (s : Seq) : List Nat := cumsumFrom 0 s
 
 def gcWindowsCumsum (s : Seq) (w : Nat) : List Nat :=
   let cs := cumsum s
@@ -156,6 +158,19 @@ def diffSegments (s t : Seq) : List (Nat × Nat) :=
   let d := diffOfPadded (diffArray s t)
   (pairUp d).take (d.length / 2)
 
+/-- run-length encoding of the `true` runs of a boolean array, as `(start, end)` pairs:
+    the declarative reading of `sequences_differences_segments` -/
+def runsFrom (i : Nat) (cur : Option Nat) : List Bool → List (Nat × Nat)
+  | [] => match cur with
+    | some st => [(st, i)]
+    | none => []
+  | true :: bs => runsFrom (i + 1) (some (cur.getD i)) bs
+  | false :: bs => match cur with
+    | some st => (st, i) :: runsFrom (i + 1) none bs
+    | none => runsFrom (i + 1) none bs
+
+def runs (arr : List Bool) : List (Nat × Nat) := runsFrom 0 none arr
+
 /-! ### windows and grouping -/
 
 /-- `windows_overlap((s1,e1),(s2,e2))` (note: closed comparison `start2 <= end1`) -/
@@ -174,22 +189,24 @@ def subdivideWindow (start stop : Int) (maxSpan : Nat) : List (Int × Int) :=
   let inds := rangeStep start stop maxSpan ++ [stop]
   List.zip inds (inds.drop 1)
 
-/-- insertion of one sorted item in the grouping loop: groups are kept reversed
-    (last group first, each group reversed) -/
-def groupStep (maxGap maxSpread : Option Int) (key : α → Int)
-    (groups : List (List α)) (x : α) : List (List α) :=
-  match groups with
-  | [] => [[x]]
-  | g :: rest =>
-    match g, g.getLast? with
-    | last :: _, some first =>
-      let gapOk := match maxGap with | none => true | some m => decide (key x - key last < m)
-      let spreadOk := match maxSpread with | none => true | some m => decide (key x - key first < m)
-      if gapOk && spreadOk then (x :: g) :: rest else [x] :: g :: rest
-    | _, _ => [x] :: rest
+/-- the test of the grouping loop: may `x` join the group whose first item is `first`
+    and whose latest item is `last`? -/
+def groupOk (maxGap maxSpread : Option Int) (key : α → Int) (first last x : α) : Bool :=
+  (match maxGap with | none => true | some m => decide (key x - key last < m)) &&
+  (match maxSpread with | none => true | some m => decide (key x - key first < m))
 
-def groupSorted (maxGap maxSpread : Option Int) (key : α → Int) (xs : List α) : List (List α) :=
-  ((xs.foldl (groupStep maxGap maxSpread key) []).map List.reverse).reverse
+/-- the grouping loop over the sorted items; `curRev` is the current group, latest first -/
+def groupGo (maxGap maxSpread : Option Int) (key : α → Int) (first last : α) (curRev : List α) :
+    List α → List (List α)
+  | [] => [curRev.reverse]
+  | x :: xs =>
+    if groupOk maxGap maxSpread key first last x then
+      groupGo maxGap maxSpread key first x (x :: curRev) xs
+    else curRev.reverse :: groupGo maxGap maxSpread key x x [x] xs
+
+def groupSorted (maxGap maxSpread : Option Int) (key : α → Int) : List α → List (List α)
+  | [] => []
+  | x :: xs => groupGo maxGap maxSpread key x x [x] xs
 
 /-- `group_nearby_indices(indices, max_gap, max_group_spread)` -/
 def groupNearbyIndices (indices : List Int) (maxGap maxSpread : Option Int) : List (List Int) :=
